@@ -473,6 +473,54 @@ func c05ScaleCheck(c c05Scale) fw.Outcome {
 		_ = o.JSON()
 		step("Contains self")
 		_ = o.Contains(o)
+	case "nested-circle-features":
+		// every level carries the Circle members; only the innermost has a Point to be a circle around
+		s := strings.Repeat(`{"type":"Feature","properties":{"type":"Circle","radius":5,"radius_units":"km"},"geometry":`, c.N) +
+			`{"type":"Point","coordinates":[1,2]}` + strings.Repeat(`}`, c.N)
+		for _, opts := range []*geojson.ParseOptions{nil, {AllowSimplePoints: true}, {DisableCircleType: true}} {
+			step("Parse")
+			o, err := geojson.Parse(s, opts)
+			if err != nil {
+				return fw.Failf("scaling", "Parse rejects %d nested features with Circle members: %v", c.N, err)
+			}
+			step("JSON")
+			_ = o.JSON()
+			step("Intersects self")
+			_ = o.Intersects(o)
+		}
+	case "huge-span":
+		// finite coordinates whose differences overflow: the walks along a line must still end
+		h := float64(c.N) * 1e306
+		shapes := [][]geometry.Point{
+			{{X: -h, Y: 0}, {X: h, Y: 0}},
+			{{X: -h, Y: -h}, {X: h, Y: h}},
+			{{X: -h, Y: 0}, {X: 0, Y: 0}, {X: h, Y: 0}},
+			{{X: 0, Y: -h}, {X: 0, Y: h}, {X: 1, Y: 0}},
+			{{X: -h, Y: -h}, {X: h, Y: -h}, {X: h, Y: h}, {X: -h, Y: h}, {X: -h, Y: -h}},
+			{{X: -h, Y: -h}, {X: h, Y: -h}, {X: 0, Y: 0}, {X: h, Y: h}, {X: -h, Y: h}, {X: -h, Y: -h}},
+		}
+		var objs []geojson.Object
+		for _, pts := range shapes {
+			objs = append(objs, geojson.NewLineString(geometry.NewLine(pts, nil)))
+			if len(pts) >= 4 {
+				objs = append(objs, geojson.NewPolygon(geometry.NewPoly(pts, nil, nil)))
+			}
+		}
+		objs = append(objs, geojson.NewPoint(geometry.Point{X: h, Y: -h}), geojson.NewRect(geometry.Rect{Min: geometry.Point{X: -h, Y: -h}, Max: geometry.Point{X: h, Y: h}}))
+		for i, a := range objs {
+			for j, b := range objs {
+				step(fmt.Sprintf("objects %d, %d", i, j))
+				_ = a.Contains(b)
+				_ = a.Intersects(b)
+				_ = a.Within(b)
+				_ = a.Distance(b)
+			}
+			step("JSON/Parse")
+			if _, err := geojson.Parse(a.JSON(), nil); err != nil {
+				return fw.Failf("scaling", "Parse rejects the serialisation of an object spanning +-%g: %v", h, err)
+			}
+			_, _, _ = a.Rect(), a.Center(), a.NumPoints()
+		}
 	case "nested-collections":
 		s := strings.Repeat(`{"type":"GeometryCollection","geometries":[`, c.N) + `{"type":"Point","coordinates":[1,2]}` + strings.Repeat(`]}`, c.N)
 		step("Parse")
@@ -535,6 +583,16 @@ func c05ScaleEnum(tier string, yield func(c05Scale) bool) {
 			if !yield(c05Scale{Shape: shape, N: d}) {
 				return
 			}
+		}
+	}
+	for _, d := range []int{25, 40, 80, 400} {
+		if !yield(c05Scale{Shape: "nested-circle-features", N: d}) {
+			return
+		}
+	}
+	for _, n := range []int{1, 100, 170} { // +-1e306, +-1e308, +-1.7e308
+		if !yield(c05Scale{Shape: "huge-span", N: n}) {
+			return
 		}
 	}
 	for k := 0; k <= kmax; k++ {
